@@ -108,7 +108,7 @@ def lookup_oracle(phrases):
 
 
 def expected_results(reply, phrase_list, opaque):
-    if "panic" in reply or "crash" in reply:
+    if "panic" in reply or "crash" in reply or "timeout" in reply or "results" not in reply and "parse_error" not in reply:
         return [1, 2, 0, 0]          # shaped like a panic observation; the model never predicts one on well-formed runs
     if "parse_error" in reply:
         return [-2]
